@@ -62,11 +62,6 @@ use rs_matter::Matter;
 
 use crate::proto::{Case, Out};
 
-/// Mirrors of handler glue that exists only after a `fix:` commit in the repo worktree (the glue of
-/// the state-level path lives in this file, so it has to follow the handlers).
-const MIRROR_EXPIRE_PURGES_RESUMPTION: bool = false;
-const MIRROR_LABEL_PERSISTED: bool = false;
-
 // ------------------------------------------------------------------------------------------------
 // recording / fault-injecting store
 
@@ -416,6 +411,7 @@ impl World {
                 window: p.pase.comm_window().is_some(),
                 rids,
                 kvlen: self.kv.0.borrow().log.len(),
+                fault_pending: self.kv.0.borrow().fail_in > 0,
             }
         })
     }
@@ -433,23 +429,18 @@ impl World {
     fn check_timeouts(&self, sid: Option<u32>) -> Result<(), Error> {
         let kv = self.matter.kv(self.kv.clone());
         self.matter.with_state(|state| {
+            let removed = {
+                let p = state.verif_parts();
+                let expire_sess_id = sid.and_then(|s| p.sessions.get(s).map(|x| x.id()));
+                p.failsafe.check_failsafe_timeout(p.fabrics, p.sessions, &*self.nets, &kv, expire_sess_id, || {}, |_, _| {})?
+            };
+            if let Some(f) = removed {
+                state.verif_purge_resumption_for_fabric(f, &kv)?;
+            }
             let p = state.verif_parts();
-            let expire_sess_id = sid.and_then(|s| p.sessions.get(s).map(|x| x.id()));
-            let removed = p.failsafe.check_failsafe_timeout(p.fabrics, p.sessions, &*self.nets, &kv, expire_sess_id, || {}, |_, _| {})?;
-            // verif: mirror of the `fix:` in the three callers of `expire` (see `after_expire`)
-            Self::after_expire(p.resumption, removed);
             p.pase.check_comm_window_timeout(|| {}, |_, _| {})?;
             Ok::<_, Error>(())
         })
-    }
-
-    /// what every caller of `FailSafe::expire` does with the reported removed fabric inside the state lock
-    fn after_expire(resumption: &mut ResumableSessions, removed: Option<NonZeroU8>) {
-        if MIRROR_EXPIRE_PURGES_RESUMPTION {
-            if let Some(f) = removed {
-                resumption.remove_for_fabric(f);
-            }
-        }
     }
 
     /// `GenCommHandler::with_armed_failsafe_ex` (gen_comm.rs:186)
@@ -627,17 +618,19 @@ impl World {
                 let secs = num(2) as u16;
                 let kv = self.matter.kv(self.kv.clone());
                 self.matter.with_state(|state| {
-                    let p = state.verif_parts();
                     if secs == 0 {
                         let pase_sess_id = matches!(mode, SessionMode::Pase { .. }).then_some(sid);
-                        match p.failsafe.expire(p.fabrics, p.sessions, pase_sess_id, &*self.nets, &kv, || {}, |_, _| {}) {
-                            Ok(removed) => {
-                                Self::after_expire(p.resumption, removed);
-                                "ok".to_string()
-                            }
+                        let r = {
+                            let p = state.verif_parts();
+                            p.failsafe.expire(p.fabrics, p.sessions, pase_sess_id, &*self.nets, &kv, || {}, |_, _| {})
+                        };
+                        match r {
+                            Ok(Some(f)) => st(state.verif_purge_resumption_for_fabric(f, &kv)),
+                            Ok(None) => "ok".to_string(),
                             Err(e) => code(&e),
                         }
                     } else {
+                        let p = state.verif_parts();
                         st(p.failsafe.arm(secs, secs as u64, &mode, p.pase))
                     }
                 })
@@ -759,7 +752,7 @@ impl World {
                             _ => {
                                 let label = format!("L{}", val);
                                 let fabric = p.fabrics.update_label(fi, &label)?;
-                                if MIRROR_LABEL_PERSISTED && !p.failsafe.is_armed_for(fi.get()) {
+                                if !p.failsafe.is_armed_for(fi.get()) {
                                     persist.store(fabric)?;
                                 }
                             }
@@ -814,11 +807,20 @@ impl World {
                 let kv = self.matter.kv(self.kv.clone());
                 let mut persist = FabricPersist::new(&kv);
                 self.matter.with_state(|state| {
-                    let p = state.verif_parts();
-                    if p.fabrics.remove(fi).is_ok() {
-                        let expire_sess_id = (sfab == fi.get()).then_some(sid);
-                        p.sessions.remove_for_fabric(fi, expire_sess_id);
-                        p.resumption.remove_for_fabric(fi);
+                    let removed = {
+                        let p = state.verif_parts();
+                        if p.fabrics.remove(fi).is_ok() {
+                            let expire_sess_id = (sfab == fi.get()).then_some(sid);
+                            p.sessions.remove_for_fabric(fi, expire_sess_id);
+                            true
+                        } else {
+                            false
+                        }
+                    };
+                    if removed {
+                        if let Err(e) = state.verif_purge_resumption_for_fabric(fi, &kv) {
+                            return code(&e);
+                        }
                         if let Err(e) = persist.remove(fi) {
                             return code(&e);
                         }
@@ -832,12 +834,21 @@ impl World {
                 // adm_comm.rs:255
                 let kv = self.matter.kv(self.kv.clone());
                 self.matter.with_state(|state| {
-                    let p = state.verif_parts();
                     let expire_sess_id = matches!(mode, SessionMode::Pase { .. }).then_some(sid);
-                    match p.failsafe.expire(p.fabrics, p.sessions, expire_sess_id, &*self.nets, &kv, || {}, |_, _| {}) {
-                        Ok(removed) => Self::after_expire(p.resumption, removed),
+                    let r = {
+                        let p = state.verif_parts();
+                        p.failsafe.expire(p.fabrics, p.sessions, expire_sess_id, &*self.nets, &kv, || {}, |_, _| {})
+                    };
+                    match r {
+                        Ok(Some(f)) => {
+                            if let Err(e) = state.verif_purge_resumption_for_fabric(f, &kv) {
+                                return code(&e);
+                            }
+                        }
+                        Ok(None) => {}
                         Err(e) => return code(&e),
                     }
+                    let p = state.verif_parts();
                     st(p.pase.close_comm_window(|| {}, |_, _| {}))
                 })
             }
@@ -922,6 +933,7 @@ pub struct View {
     pub window: bool,
     pub rids: Vec<u64>,
     pub kvlen: usize,
+    pub fault_pending: bool,
 }
 
 pub fn make_cas() -> Rc<Vec<Ca>> {
